@@ -512,8 +512,8 @@ impl<D: TextDecorator> SubRenderer<D> {
                     let ghost pf = frags@; //@w
                     for frag in it: frags
                         invariant //@w
-                            it.seq() == frags@, frags@ == pf, no_str(pf), all_some(pf), tag_ok::<Vec<D::Annotation>>(), //@w
-                            tl.wf(), tl.len == 0, flat(tl.v@) =~= flat(pf.take(it.index@)), //@w
+                            it.seq() == frags@, frags@ == pf, no_str(pf), all_some(pf), tag_ok::<Vec<D::Annotation>>(), //@w @C02 @C03 @C09 @C11 @C14 #add_line_loop_invariant
+                            tl.wf(), tl.len == 0, flat(tl.v@) =~= flat(pf.take(it.index@)), //@w @C02 @C03 @C09 @C11 @C14 #add_line_loop_invariant
                     {
                         proof { //@w
                             let k = it.index@; //@w
@@ -528,8 +528,8 @@ impl<D: TextDecorator> SubRenderer<D> {
                     let ghost tv = parts@; //@w
                     for part in it2: parts
                         invariant //@w
-                            it2.seq() == parts@, parts@ == tv, tag_ok::<Vec<D::Annotation>>(), cwid(tv) == tagged_line.len, tagged_line.len <= 0x4000_0000_0000_0000, //@w
-                            tl.wf(), tl.len == cwid(tv.take(it2.index@)), flat(tl.v@) =~= flat(pf) + flat(tv.take(it2.index@)), //@w
+                            it2.seq() == parts@, parts@ == tv, tag_ok::<Vec<D::Annotation>>(), cwid(tv) == tagged_line.len, tagged_line.len <= 0x4000_0000_0000_0000, //@w @C02 @C03 @C09 @C11 @C14 #add_line_loop_invariant
+                            tl.wf(), tl.len == cwid(tv.take(it2.index@)), flat(tl.v@) =~= flat(pf) + flat(tv.take(it2.index@)), //@w @C02 @C03 @C09 @C11 @C14 #add_line_loop_invariant
                     {
                         proof { //@w
                             let k = it2.index@; //@w
@@ -611,15 +611,15 @@ impl<D: TextDecorator> SubRenderer<D> {
             let ls = w.into_lines()?;
             for l in it: ls
                 invariant //@w
-                    rl_flat(self.lines@.skip(n0)) =~= (if it.index@ > 0 { flat(p0) + lines_flat(ls@.take(it.index@)) } else { Seq::empty() }), //@w
-                    it.index@ > 0 ==> self.pending_frags@.len() == 0, it.index@ == 0 ==> self.pending_frags@ == p0, //@w
-                    n0 == old(self).lines@.len(), self.lines@.len() == n0 + it.index@, //@w
-                    it.seq() == ls@, tag_ok::<Vec<D::Annotation>>(), self.sr_inv(), self.wrapping.is_none(), //@w
-                    self.same_stacks(old(self)) && self.same_config(old(self)) && self.decorator == old(self).decorator && self.at_block_end == old(self).at_block_end, //@w
-                    forall|i: int| 0 <= i < ls@.len() ==> (#[trigger] ls@[i]).wf() && fits(ls@[i], w1.width, w1.allow_overflow), //@w
-                    w1.width <= self.width && w1.allow_overflow == self.options.allow_width_overflow && self.width <= 0x1000_0000_0000_0000, //@w
-                    self.lines@.len() >= old(self).lines@.len() && self.lines@.take(old(self).lines@.len() as int) =~= old(self).lines@, //@w
-                    forall|i: int| old(self).lines@.len() <= i < self.lines@.len() ==> short_line(#[trigger] self.lines@[i], self.width), //@w
+                    rl_flat(self.lines@.skip(n0)) =~= (if it.index@ > 0 { flat(p0) + lines_flat(ls@.take(it.index@)) } else { Seq::empty() }), //@w @C02 @C03 @C09 @C11 @C14 #flush_wrapping_loop_invariant
+                    it.index@ > 0 ==> self.pending_frags@.len() == 0, it.index@ == 0 ==> self.pending_frags@ == p0, //@w @C02 @C03 @C09 @C11 @C14 #flush_wrapping_loop_invariant
+                    n0 == old(self).lines@.len(), self.lines@.len() == n0 + it.index@, //@w @C02 @C03 @C09 @C11 @C14 #flush_wrapping_loop_invariant
+                    it.seq() == ls@, tag_ok::<Vec<D::Annotation>>(), self.sr_inv(), self.wrapping.is_none(), //@w @C02 @C03 @C09 @C11 @C14 #flush_wrapping_loop_invariant
+                    self.same_stacks(old(self)) && self.same_config(old(self)) && self.decorator == old(self).decorator && self.at_block_end == old(self).at_block_end, //@w @C02 @C03 @C09 @C11 @C14 #flush_wrapping_loop_invariant
+                    forall|i: int| 0 <= i < ls@.len() ==> (#[trigger] ls@[i]).wf() && fits(ls@[i], w1.width, w1.allow_overflow), //@w @C02 @C03 @C09 @C11 @C14 #flush_wrapping_loop_invariant
+                    w1.width <= self.width && w1.allow_overflow == self.options.allow_width_overflow && self.width <= 0x1000_0000_0000_0000, //@w @C02 @C03 @C09 @C11 @C14 #flush_wrapping_loop_invariant
+                    self.lines@.len() >= old(self).lines@.len() && self.lines@.take(old(self).lines@.len() as int) =~= old(self).lines@, //@w @C02 @C03 @C09 @C11 @C14 #flush_wrapping_loop_invariant
+                    forall|i: int| old(self).lines@.len() <= i < self.lines@.len() ==> short_line(#[trigger] self.lines@[i], self.width), //@w @C02 @C03 @C09 @C11 @C14 #flush_wrapping_loop_invariant
             {
                 proof { assert(fits(ls@[it.index@], w1.width, w1.allow_overflow)); } //@w
                 let ghost before = self.lines@; //@w
@@ -1170,7 +1170,7 @@ impl<D: TextDecorator> SubRenderer<D> {
 
         let mut first = true;
         for col in it: cols
-            invariant //@w[
+            invariant //@w[ @C02 @C03 @C05 @C09 @C11 @C15 #append_vert_row_loop_invariant
                 it.seq() == cols@, self.sr_inv(), tag_ok::<Vec<D::Annotation>>(), width == self.width, self.width == old(self).width,
                 self.same_stacks(old(self)) && self.same_config(old(self)),
                 forall|k: int| 0 <= k < cols@.len() ==> (#[trigger] cols@[k]).sr_inv() && cols@[k].options == old(self).options && (cols@[k].width <= old(self).width || loose(old(self).options))
@@ -1219,9 +1219,9 @@ impl<D: TextDecorator> SubRenderer<D> {
     {
         for line in itl: links
             invariant //@w
-                self.sr_inv(), tag_ok::<Vec<D::Annotation>>(), self.same_stacks(old(self)) && self.same_config(old(self)), //@w
+                self.sr_inv(), tag_ok::<Vec<D::Annotation>>(), self.same_stacks(old(self)) && self.same_config(old(self)), //@w @C02 @C03 @C08 @C09 #fmt_links_loop_invariant
                 self.width >= 2, //@w kf=D13
-                self.lines@.len() >= old(self).lines@.len() + itl.index@ && itl.index@ >= 0 && self.lines@.take(old(self).lines@.len() as int) =~= old(self).lines@, //@w
+                self.lines@.len() >= old(self).lines@.len() + itl.index@ && itl.index@ >= 0 && self.lines@.take(old(self).lines@.len() as int) =~= old(self).lines@, //@w @C02 @C03 @C08 @C09 #fmt_links_loop_invariant
         {
             /* Hard wrap */
             let mut pos: usize = 0;
@@ -1229,12 +1229,12 @@ impl<D: TextDecorator> SubRenderer<D> {
             let tss = line_tagged_strings(line);
             for ts in its: tss
                 invariant //@w
-                    self.sr_inv(), tag_ok::<Vec<D::Annotation>>(), self.same_stacks(old(self)) && self.same_config(old(self)), //@w
-                    its.seq() == tss@, tss@.len() <= 0x10_0000, forall|i: int| 0 <= i < tss@.len() ==> short(#[trigger] tss@[i].s@), //@w
+                    self.sr_inv(), tag_ok::<Vec<D::Annotation>>(), self.same_stacks(old(self)) && self.same_config(old(self)), //@w @C02 @C03 @C08 @C09 #fmt_links_loop_invariant
+                    its.seq() == tss@, tss@.len() <= 0x10_0000, forall|i: int| 0 <= i < tss@.len() ==> short(#[trigger] tss@[i].s@), //@w @C02 @C03 @C08 @C09 #fmt_links_loop_invariant
                     self.width >= 2, //@w kf=D13
-                    wrapped_line.wf(), wrapped_line.len == pos, pos <= its.index@ * 0x2_0000_0000 + self.width, //@w
-                    self.options.wrap_links ==> pos <= self.width, //@w
-                    self.lines@.len() >= old(self).lines@.len() + itl.index@ && itl.index@ >= 0 && self.lines@.take(old(self).lines@.len() as int) =~= old(self).lines@, //@w
+                    wrapped_line.wf(), wrapped_line.len == pos, pos <= its.index@ * 0x2_0000_0000 + self.width, //@w @C02 @C03 @C08 @C09 #fmt_links_loop_invariant
+                    self.options.wrap_links ==> pos <= self.width, //@w @C02 @C03 @C08 @C09 #fmt_links_loop_invariant
+                    self.lines@.len() >= old(self).lines@.len() + itl.index@ && itl.index@ >= 0 && self.lines@.take(old(self).lines@.len() as int) =~= old(self).lines@, //@w @C02 @C03 @C08 @C09 #fmt_links_loop_invariant
             {
                 proof { assert(short(tss@[its.index@].s@)); } //@w
                 // FIXME: should we percent-escape?  This is probably
@@ -1250,10 +1250,10 @@ impl<D: TextDecorator> SubRenderer<D> {
                     let ghost pos_in = pos; //@w
                     for c in itc: s.chars()
                         invariant //@w
-                            self.sr_inv(), tag_ok::<Vec<D::Annotation>>(), self.same_stacks(old(self)) && self.same_config(old(self)), //@w
-                            wrapped_line.wf(), wrapped_line.len + sw(buf@) == pos, pos <= self.width, self.options.wrap_links, //@w
+                            self.sr_inv(), tag_ok::<Vec<D::Annotation>>(), self.same_stacks(old(self)) && self.same_config(old(self)), //@w @C02 @C03 @C08 @C09 #fmt_links_loop_invariant
+                            wrapped_line.wf(), wrapped_line.len + sw(buf@) == pos, pos <= self.width, self.options.wrap_links, //@w @C02 @C03 @C08 @C09 #fmt_links_loop_invariant
                             self.width >= 2, //@w kf=D13
-                            self.lines@.len() >= old(self).lines@.len() + itl.index@ && itl.index@ >= 0 && self.lines@.take(old(self).lines@.len() as int) =~= old(self).lines@, //@w
+                            self.lines@.len() >= old(self).lines@.len() + itl.index@ && itl.index@ >= 0 && self.lines@.take(old(self).lines@.len() as int) =~= old(self).lines@, //@w @C02 @C03 @C08 @C09 #fmt_links_loop_invariant
                     {
                         let c_width = UnicodeWidthChar::width(c).unwrap_or(0);
                         if pos + c_width > self.width {
@@ -2011,7 +2011,7 @@ fn filter_text_strikeout(s: &str) -> (r: Option<String>)
 {
     let mut result = String::new();
     for c in it: s.chars()
-        invariant result@ =~= strike(s@.take(it.index@)), //@w
+        invariant result@ =~= strike(s@.take(it.index@)), //@w @C15 #filter_text_strikeout_loop_invariant
     {
         proof { //@w
             let k = it.index@; //@w
